@@ -209,6 +209,8 @@ func runC01(p *an.Prog, r *an.Run, tier string) {
 	r.Floor("drivers", len(drivers), 2)
 	checkLedgerWriterMethods(p, r)
 	checkTxnWrappers(p, r)
+	checkBigIntOwnership(p, r)
+	checkKeyOperandTypes(p, r)
 	for _, d := range drivers {
 		checkDriverLedger(p, r, d)
 	}
